@@ -248,6 +248,7 @@ def _single_comp(ob: Ob, m, recs, line, kind=("list", "gen")):
 @obligation("C13-D4", "record-builder summaries vs. role table: key->prefix, value->uri_prefix; head/tail of the same (sorted) sequence become canonical/synonyms; key=len for the reverse map; lexicographic sort and sorted outer iteration for upgrade_prefix_map; no filters", floor=6)
 def d4(cx: Cx, ob: Ob) -> None:
     ci = cx.model.cls(CONV, ob.id)
+    groupby_sortedness(cx, ob)
     # ---- from_prefix_map
     m = cx.model.find_method(ci, "from_prefix_map")
     data = ("param", m.params[1].name)
@@ -539,6 +540,25 @@ def check_jsonld_reader(cx: Cx, ob: Ob) -> None:
                 ob.violate(m.qualname, where(m, ev.line), "from_jsonld keeps a term without having excluded keys starting with '@' (JSON-LD keywords such as @vocab, @base)", detail="at-key")
             isstr = ("call", ("builtin", "isinstance"), (v, ("builtin", "str")), ())
             isdict = ("call", ("builtin", "isinstance"), (v, ("builtin", "dict")), ())
+            okv_str = {isstr, isdict}
+            if ev.b == v or ev.b == ("item", v, ("const", "@id")):
+                for g, pol in guards:
+                    if not any(x == v for x in subterms(g)) or any(x == k for x in subterms(g)):
+                        continue
+                    parts_g = g[1] if op(g) in ("and", "or") else (g,)
+                    for c in parts_g:
+                        if c in okv_str:
+                            continue
+                        if ev.b != v and (c == ("call", ("attr", v, "get"), (("const", "@prefix"),), ()) or c == ("item", v, ("const", "@prefix")) or (op(c) == "cmp" and any(is_const(x, "@prefix") or is_const(x, "@id") for x in subterms(c)))):
+                            continue
+                        if any(x == v for x in subterms(c)):
+                            ob.violate(
+                                m.qualname,
+                                where(m, ev.line),
+                                f"from_jsonld keeps a term only if its value satisfies `{'' if pol else 'not '}{show(c)[:50]}`: the property takes every string term and every '@prefix': true definition",
+                                witness="{'@context': {'at': '@example/'}}: a string-valued term that is dropped",
+                                detail="extra-value-filter",
+                            )
             if ev.b == v:
                 seen_str = True
                 if (isstr, True) not in guards:
@@ -566,3 +586,33 @@ def check_jsonld_reader(cx: Cx, ob: Ob) -> None:
         ob.violate(m.qualname, m.where, "from_jsonld never takes plain string terms", detail="no-str-terms")
     if not seen_dict:
         ob.violate(m.qualname, m.where, "from_jsonld never takes expanded term definitions with '@prefix': true", detail="no-dict-terms")
+
+
+def groupby_sortedness(cx: Cx, ob: Ob) -> None:
+    """itertools.groupby only merges ADJACENT equal keys: its input must be sorted by the grouping key."""
+    names = [f"{API}.upgrade_prefix_map"] + [m.qualname for m in cx.model.cls(CONV, ob.id).methods.values() if m.name.startswith("from_")]
+    for q in names:
+        fn = cx.model.functions.get(q)
+        if fn is None:
+            continue
+        s = cx.summary(fn, ob.id)
+        for t, ev, ctx in s.all_terms():
+            for c in subterms(t):
+                if not (op(c) == "call" and op(c[1]) == "ext" and c[1][1] == "itertools.groupby" and c[2]):
+                    continue
+                key = dict(c[3]).get("key") or (c[2][1] if len(c[2]) > 1 else None)
+                src = c[2][0]
+                ob.site(f"{where(fn, ev.line)} {fn.qualname}", f"groupby(key={show(key)[:40] if key else None})")
+                skey = None
+                ok = False
+                if op(src) == "call" and src[1] == ("builtin", "sorted"):
+                    skey = dict(src[3]).get("key")
+                    ok = skey == key
+                if not ok:
+                    ob.violate(
+                        fn.qualname,
+                        where(fn, ev.line),
+                        f"itertools.groupby(key={show(key)[:40] if key else 'identity'}) runs over input sorted by {show(skey)[:40] if skey else ('the whole item' if op(src) == 'call' and src[1] == ('builtin', 'sorted') else 'nothing')}: equal keys that are not adjacent form several groups, i.e. several records claiming the same URI prefix",
+                        witness="{'a': 'U', 'b': 'V', 'c': 'U'} sorted by item is (a,U),(b,V),(c,U): two groups for U",
+                        detail="groupby-unsorted",
+                    )
